@@ -2,7 +2,8 @@
 
 Written from the property statement, independently of the code under test:
 nothing here imports treadmill.  Quantities are parsed by the harness's own
-unit parser (cpu: percent, memory/disk: binary K/M/G), sums are taken over
+unit parser (cpu: percent, memory/disk: binary K/M/G or decimal KB/MB/GB, any
+letter case), sums are taken over
 the reservations the harness knows to be stored in the same cell and
 partition, the one being replaced excluded.
 
@@ -18,9 +19,9 @@ import re
 DIMS = ('cpu', 'memory', 'disk')
 DEFAULT_PARTITION = '_default'
 
-_SIZE_RE = re.compile(r'^(\d+)([KkMmGg])$')
+_SIZE_RE = re.compile(r'^(\d+)([KkMmGg])([Bb]?)$')
 _CPU_RE = re.compile(r'^(\d+)%$')
-_MULT = {'k': 1 << 10, 'm': 1 << 20, 'g': 1 << 30}
+_POWER = {'k': 1, 'm': 2, 'g': 3}
 
 
 class Unparsable(Exception):
@@ -28,13 +29,17 @@ class Unparsable(Exception):
 
 
 def parse_size(text):
-    """'2G' / '2048M' / '2097152k' -> bytes (binary multiples)."""
+    """'2G' / '2048M' / '2097152k' -> bytes in binary multiples; a unit letter
+    followed by B or b (any letter case: 'GB', 'gb', 'Gb', 'gB') is a decimal
+    multiple ('2GB' = 2 * 1000**3), as treadmill.utils.size_to_bytes
+    documents."""
     if not isinstance(text, str):
         raise Unparsable(repr(text))
     match = _SIZE_RE.match(text.strip())
     if match is None:
         raise Unparsable(repr(text))
-    return int(match.group(1)) * _MULT[match.group(2).lower()]
+    base = 1000 if match.group(3) else 1024
+    return int(match.group(1)) * base ** _POWER[match.group(2).lower()]
 
 
 def parse_cpu(text):
